@@ -192,7 +192,8 @@ EvalTreesAt(G, w, B, TT, n, p) ==
 RECURSIVE KleeneT(_, _, _, _, _, _, _)
 KleeneT(G, w, B, TT, ns, p, fuel) ==
   LET T2 == [n \in NodesOf(G) |-> IF n \in ns THEN [TT[n] EXCEPT ![p] = EvalTreesAt(G, w, B, TT, n, p)] ELSE TT[n]]
-  IN IF T2 = TT THEN <<TT, TRUE>> ELSE IF fuel = 0 THEN <<TT, FALSE>> ELSE KleeneT(G, w, B, T2, ns, p, fuel - 1)
+      big == \E n \in ns : Cardinality(T2[n][p]) > 24      \* explosively ambiguous: give up (reported as not converged)
+  IN IF T2 = TT THEN <<TT, TRUE>> ELSE IF fuel = 0 \/ big THEN <<TT, FALSE>> ELSE KleeneT(G, w, B, T2, ns, p, fuel - 1)
 RECURSIVE RankLoopT(_, _, _, _, _, _, _)
 RankLoopT(G, w, B, TT, rank, r, p) ==
   IF r > Len(G) THEN <<TT, TRUE>>
